@@ -382,6 +382,9 @@ impl<'a> GeneratorState<'a> {
                     _ => {
                         let mut acc_in_use = self.acc_in_use;
                         let signed;
+                        // The flags follow the value into the destination only if they are those of
+                        // the accumulator (not after a call, a PLA or a join)
+                        let flags_of_acc = !matches!(right, ExprType::A(_)) || self.flags == FlagsState::A;
                         match right {
                             ExprType::Absolute(_, _, _)
                             | ExprType::AbsoluteX(_)
@@ -423,7 +426,7 @@ impl<'a> GeneratorState<'a> {
                         match left {
                             ExprType::Absolute(a, b, c) => {
                                 self.asm(STA, left, pos, high_byte)?;
-                                self.flags = if high_byte {
+                                self.flags = if high_byte || !flags_of_acc {
                                     FlagsState::Unknown
                                 } else {
                                     FlagsState::Absolute(a.clone(), *b, *c)
@@ -431,7 +434,7 @@ impl<'a> GeneratorState<'a> {
                             }
                             ExprType::AbsoluteX(s) => {
                                 self.asm(STA, left, pos, high_byte)?;
-                                self.flags = if high_byte {
+                                self.flags = if high_byte || !flags_of_acc {
                                     FlagsState::Unknown
                                 } else {
                                     FlagsState::AbsoluteX(s.clone())
@@ -439,7 +442,7 @@ impl<'a> GeneratorState<'a> {
                             }
                             ExprType::AbsoluteY(s) => {
                                 self.asm(STA, left, pos, high_byte)?;
-                                self.flags = if high_byte {
+                                self.flags = if high_byte || !flags_of_acc {
                                     FlagsState::Unknown
                                 } else {
                                     FlagsState::AbsoluteY(s.clone())
